@@ -258,7 +258,9 @@ func (p *Peer) handle(c *Conn, raw []byte) {
 			p.state = psEstablished
 			p.EstablishedAt = append(p.EstablishedAt, now)
 			p.View = map[viewKey]Attrs{}
-			p.startKeepalives(c)
+			if !p.Cfg.ManualOpen {
+				p.startKeepalives(c) // hand-scripted peers start their keepalives with the plan's first keepalive step
+			}
 		}
 	case MsgNotification:
 		p.Notifs = append(p.Notifs, RxMsg{At: now, Conn: c, Msg: m})
